@@ -109,6 +109,14 @@ pub fn run(tier: Tier) -> Run {
         }
         run.outcome("class_sequences", seqn);
     }
+    // every narrow typed constant (all 16-bit patterns x high halves behind 8-/16-bit types) through the disassembler
+    {
+        let (n, vs) = crate::checks::c07::narrow_sweep(tier);
+        for v in vs.into_iter().filter(|v| v.key.starts_with("C07:panic@")) {
+            run.add(Viol { key: v.key.replacen("C07:", "C04:", 1), what: v.what, replay: v.replay });
+        }
+        run.outcome("narrow_typed_constants_disassembled", n);
+    }
     // decoder request space
     let reqs = c11::requests();
     let mut bufs = c11::buffers(&[0x00, 0x02, 0xFF], tier.pick(5, 7));
